@@ -18,6 +18,15 @@ Cases
   against fake gate modules placed in `sys.modules`;
 * hand-made S-expressions: a fixed list of wrong shapes plus random mutations of parsed programs.
 
+Oracles (the properties on the real code alone): `C07_context_free` (a statement / macro built alone after the same
+header is the object it is inside the whole program; numbers compared by value), `C07_memo_transparent` (the real builder
+with its memo table disabled returns the same circuit), `C14_refs_valid` (independent re-check of every accepted program:
+literal indices and slices in range, sources are registers, arity and kinds fit, definitions known, names distinct, one
+register) — these three on generated program TEXTS; the `_handmade_sx` variants run the same checks on hand-made
+S-expressions, where one input is known to fail both (a `usepulses` child after a gate statement, which the parser cannot
+produce; see Props/C07.lean `C07_memo_stale_after_usepulses`).  The exact (int vs float) form of C07 fails on
+`g 1; g 1.0`; that is counted in `distribution`, not as an oracle failure.
+
 The model answers `Unmodelled:<why>` on inputs that would make the Python build an object the IR cannot hold; on those
 the script checks that the Python raised or produced something `dump.circuit` cannot dump, and tabulates what it did.
 """
@@ -775,6 +784,8 @@ def _new_result():
     return {"corr": {op: {"cases": 0, "disagreements": []} for op in ("build", "build_nomemo", "parse_build")},
             "oracle": {"C07_context_free": {"cases": 0, "failures": []},
                        "C07_memo_transparent": {"cases": 0, "failures": []},
+                       "C07_memo_transparent_handmade_sx": {"cases": 0, "failures": []},
+                       "C14_refs_valid_handmade_sx": {"cases": 0, "failures": []},
                        "C14_refs_valid": {"cases": 0, "failures": []}},
             "distribution": {}, "samples": [], "nontrivial": 0}
 
@@ -859,9 +870,10 @@ def run(seed: int, n: int, driver: str = DEFAULT_DRIVER, thorough: bool = False)
         if canon(m2) != canon(model):
             _bump(res, "model: memo and no-memo builds differ")
         # oracle on the real code alone: the memo table changes nothing (numbers compared by value)
-        res["oracle"]["C07_memo_transparent"]["cases"] += 1
+        memo_oracle = "C07_memo_transparent" if c["kind"] == "text" else "C07_memo_transparent_handmade_sx"
+        res["oracle"][memo_oracle]["cases"] += 1
         if canon(numnorm(impl)) != canon(numnorm(impl2)):
-            _record(res["oracle"]["C07_memo_transparent"]["failures"],
+            _record(res["oracle"][memo_oracle]["failures"],
                     {"case": c, "detail": f"with memo {canon(impl)[:600]} / without {canon(impl2)[:600]}"})
         elif canon(impl) != canon(impl2):
             _bump(res, "python: memo changes an int/float literal (g 1; g 1.0)")
@@ -889,9 +901,9 @@ def run(seed: int, n: int, driver: str = DEFAULT_DRIVER, thorough: bool = False)
         elif "ok" in impl and circ is not None:
             bad = oracle_c14(circ, c["natives"] or c["autoload"])
             bad = [b for b in bad if "more than one fundamental" not in b]  # that check belongs to parse_jaqal_string
-            res["oracle"]["C14_refs_valid"]["cases"] += 1
+            res["oracle"]["C14_refs_valid_handmade_sx"]["cases"] += 1
             for b in bad[:3]:
-                _record(res["oracle"]["C14_refs_valid"]["failures"], {"case": c, "detail": b})
+                _record(res["oracle"]["C14_refs_valid_handmade_sx"]["failures"], {"case": c, "detail": b})
     res["nontrivial"] = len(distinct)
     for c in cases[:: max(1, len(cases) // 8)][:8]:
         res["samples"].append(c if c["kind"] == "sx" else {"text": c["text"], "natives": c["natives"], "autoload": c["autoload"]})
